@@ -824,6 +824,12 @@ class Chunk(Family):
             main, calls = gc.gen_wellformed_calls(rng, max_changes=2, max_files=2)
             wobs, data, per = sl.run_writer(sl.S(main), sl.S('1.0'), calls)
             files.append(data)
+        # a file whose header lines end in CRLF (the delimiter the reader looks for is still LF, preceded by CR)
+        for _ in range(200):
+            f = gf.gen_file(rng)
+            if f['crlf'] and len(gf.render(f)) < 1500:
+                files.append(gf.render(f))
+                break
         long_line = b'#diffx: version=1.0\n#.preamble: length=%d\n' % 401 + b'y' * 400 + b'\n#.change:\n#..file:\n#...meta: length=3\n{}\n'
         files.append(long_line)
         grid = []
@@ -847,6 +853,8 @@ class Chunk(Family):
     def _data(self, c):
         data = unhx(c['data'])
         i = data.index(b'\n')
+        if i > 0 and data[i - 1:i] == b'\r':
+            i -= 1
         p = c['pad']
         if p == 0:
             return data
